@@ -10,5 +10,6 @@ pub mod codec;
 pub mod commitlog;
 pub mod engine;
 pub mod fullstack;
+pub mod fuzzdec;
 pub mod props;
 pub mod topic;
